@@ -15,6 +15,15 @@ namespace libphysica
 {
 using namespace boost::math::quadrature;
 
+#ifdef LIBPHYSICA_VERIF
+// Verification hook: lets a harness pin the seed of the per-call generators of the Monte Carlo integrators.
+namespace verif
+{
+bool mc_seed_set	 = false;
+unsigned int mc_seed = 0;
+}	// namespace verif
+#endif
+
 // 1. One-dimensional MC integration
 // 1.1 One-dimensional integration via adaptive Simpson method
 
@@ -306,6 +315,10 @@ double Integrate_MC_Vegas(std::function<double(std::vector<double>&, const doubl
 	// Initialize  captive, static random number generator
 	std::random_device rd;
 	std::mt19937 PRNG(rd());
+#ifdef LIBPHYSICA_VERIF
+	if(verif::mc_seed_set)
+		PRNG.seed(verif::mc_seed);
+#endif
 
 	int ndim = region.size() / 2;
 	if(init <= 0)
@@ -538,6 +551,10 @@ double Integrate_MC_Brute_Force(std::function<double(std::vector<double>&, const
 {
 	std::random_device rd;
 	std::mt19937 PRNG(rd());
+#ifdef LIBPHYSICA_VERIF
+	if(verif::mc_seed_set)
+		PRNG.seed(verif::mc_seed);
+#endif
 
 	double volume = MC_Volume(region);
 
@@ -659,6 +676,10 @@ double Integrate_MC_Miser(std::function<double(std::vector<double>&, const doubl
 	// Initialize  captive, static random number generator
 	std::random_device rd;
 	std::mt19937 PRNG(rd());
+#ifdef LIBPHYSICA_VERIF
+	if(verif::mc_seed_set)
+		PRNG.seed(verif::mc_seed);
+#endif
 
 	double dith = 0.0;
 	double average, var;
